@@ -8,10 +8,11 @@ CONSTANT Depth
 VARIABLE hist
 MetaSet == {[key |-> k] @@ meta[k] : k \in DOMAIN meta}
 EngSet(n) == {[key |-> k] @@ engine[n][k] : k \in DOMAIN engine[n]}
-Rec == [t |-> IF last'.why = "restart" THEN "restart" ELSE rq.type,
-        g |-> rq.g, opt |-> rq.opt, ents |-> rq.stim.ents,
-        res |-> last'.res, why |-> last'.why, ret |-> last'.ret, n |-> last'.n,
-        meta |-> MetaSet', eng |-> [n \in Node |-> EngSet(n)'], ctr |-> ctr']
+Post == [res |-> last'.res, why |-> last'.why, ret |-> last'.ret, n |-> last'.n,
+         meta |-> MetaSet', eng |-> [n \in Node |-> EngSet(n)'], ctr |-> ctr']
+Rec == IF last'.why = "restart"
+       THEN [t |-> "restart", g |-> 0, opt |-> "plain", ents |-> <<>>, cut |-> 0] @@ Post
+       ELSE [t |-> rq.type, g |-> rq.g, opt |-> rq.opt, ents |-> rq.stim.ents, cut |-> rq.stim.cut] @@ Post
 GNext == /\ nreq < Depth
          /\ Next
          /\ hist' = IF nreq' # nreq THEN Append(hist, Rec) ELSE hist
